@@ -99,6 +99,37 @@ def add_hex(m):
     m.c([2 * f for f in fs])
 
 
+def add_tet_chain(m, n):
+    """n face-sharing tetrahedra (tet k on vertices k..k+3) through halfedge / halfface lists:
+    3n+3 edges, 3n+1 faces, so that half-entity handles cross an integer width before the entity counts do"""
+    for i in range(n + 3):
+        m.v(i, 0.5 * (i % 3), 0.25 * (i % 5))
+    E, F = {}, {}
+    def he(a, b):
+        if (a, b) in E: return E[(a, b)]
+        if (b, a) in E: return E[(b, a)] ^ 1
+        E[(a, b)] = 2 * m.e(a, b); return E[(a, b)]
+    def hf(t):
+        key = frozenset(t)
+        if key in F:
+            f, s = F[key]
+            same = any(tuple(s[(i + r) % 3] for i in range(3)) == t for r in range(3))
+            return 2 * f + (0 if same else 1)
+        f = m.f([he(t[i], t[(i + 1) % 3]) for i in range(3)])
+        F[key] = (f, t); return 2 * f
+    for k in range(n):
+        a, b, c, d = k, k + 1, k + 2, k + 3
+        m.c([hf((a, b, c)), hf((a, c, d)), hf((a, d, b)), hf((b, d, c))])
+
+
+def half_entity_props(m):
+    m.prop('HE', 'bool', b'he_flag', b'\0', [bytes([(i // 5) % 2]) for i in range(2 * m.ne)])
+    m.prop('HE', 'int32', b'he_id', I32(-1), [I32(i) for i in range(2 * m.ne)])
+    m.prop('HF', 'int32', b'hf_id', I32(-1), [I32(3 * i) for i in range(2 * m.nf)])
+    m.prop('HF', 'bool', b'hf_flag', b'\1', [bytes([i % 3 % 2]) for i in range(2 * m.nf)])
+    m.prop('C', 'HFH', b'c_first_hf', I32(-1), [I32(2 * i + 1) for i in range(m.nc)])
+
+
 I32 = lambda v: struct.pack('<i', v)
 TYPE_SAMPLES = {
     # tag: (default, value(i)) as canonical bytes
@@ -209,6 +240,28 @@ def corpus(tier, seed):
             for i in range(rnd.randint(0, 3)): m.c([rnd.randrange(2 * m.nf) for _ in range(rnd.randint(1, 5))])
         add_props(m, rnd.sample(OVMB_TYPES, 3), rnd.sample(KINDS, 3))
         ms.append(m)
+    return ms
+
+
+def width_corpus(tier):
+    """index-width boundaries per referencing relation: the entity count is still below a boundary while
+    the half-entity handles stored one level up are beyond it, and both beyond it; polyhedral and
+    tetrahedral mesh types; properties on the half-entities"""
+    ms = []
+    sizes = [50, 90] + ([11000, 22000] if tier == 'thorough' else [])       # faces 151 / 271 / 33001 / 66001
+    for n in sizes:
+        m = Mesh('chain%d' % n, tcok=True); add_tet_chain(m, n); half_entity_props(m); ms.append(m)
+    for n in [50] + ([11000] if tier == 'thorough' else []):
+        m = Mesh('tchain%d' % n, 'tet', tcok=True)
+        for i in range(n + 3): m.v(i, 0.5 * (i % 3), 0.25 * (i % 5))
+        for k in range(n): m.tet([k, k + 1, k + 2, k + 3])
+        m.ne, m.nf, m.nc = 3 * n + 3, 3 * n + 1, n
+        half_entity_props(m); ms.append(m)
+    # faces over halfedge handles >= 256 with 128..255 edges and no cells; cells over few faces
+    m = Mesh('fan140'); [m.v(i, i % 2, 0) for i in range(141)]
+    for i in range(140): m.e(i, i + 1)
+    for i in range(0, 138, 2): m.f([2 * i, 2 * (i + 1), 2 * (139 - i) + 1])
+    m.c([2 * (m.nf - 1) + 1, 0, 2 * (m.nf - 2)]); half_entity_props(m); ms.append(m)
     return ms
 
 
@@ -542,8 +595,8 @@ def configs_for(tier):
 
 
 def check_c06(ctx, cov):
-    ms = corpus(ctx.tier, ctx.seed) + big_corpus(ctx.tier)
-    small = [m for m in ms if not m.name.startswith('soup')]
+    ms = corpus(ctx.tier, ctx.seed) + big_corpus(ctx.tier) + width_corpus(ctx.tier)
+    small = [m for m in ms if not m.name.startswith('soup') and m.nf < 1000]
     pend = pending_corpus()
     defs = meshdefs_of(ms + pend)
     # (a) writer -> description, for both formats; (d) pending deletions
@@ -564,7 +617,7 @@ def check_c06(ctx, cov):
             continue
         for fmt in ('ovmb', 'ascii'):
             # the 65536-entity soups (records of ~60 MB) make one round trip per format
-            for (mt, tc, bu) in (configs_for(ctx.tier) if m.nv < 60000 else [('poly', 0, 0)]):
+            for (mt, tc, bu) in (configs_for(ctx.tier) if m.nv < 10000 else [('poly', 0, 0)] + ([('tet', 1, 1)] if m.name.startswith('tchain') else [])):
                 tj.append('T %d %s %s %s %d %d' % (j, m.name, fmt, mt, tc, bu)); j += 1
     tmap = {int(x.split()[1]): x for x in tj}
     trecs = run_exec(ctx.variant, defs, tj, ctx.work, 't')
@@ -659,6 +712,10 @@ def check_faults(ctx, cov, prop):
             if mt_src in ('tet', 'hex'):
                 rot = rot + [(mt_src, 1, 1)]
             cfgs = [rot[nadd[0] % len(rot)]]
+            if prop == 'C18' and kind == 'num':
+                # numeric fields (counts, spans, handles, offsets): without the topology check nothing but the
+                # reader's own range checks stands between a wrong handle and the mesh
+                cfgs = [('poly', 1, 1), ('poly', 0, 0)]
         else:
             cfgs = [('poly', 1, 1), ('poly', 0, 0)]
             if mt_src in ('tet', 'hex'):
